@@ -2,7 +2,6 @@
 
 use crate::container::*;
 use crate::proto::*;
-use futures::stream::Stream;
 use std::cell::RefCell;
 use std::collections::BTreeMap;
 use std::panic::{AssertUnwindSafe, catch_unwind};
@@ -164,9 +163,6 @@ impl Harness {
     }
     pub fn now(&self) -> u64 {
         clock_ms() - self.case_start
-    }
-    pub fn case_start(&self) -> u64 {
-        self.case_start
     }
 
     // ---- teardown -----------------------------------------------------------------------------
